@@ -1,7 +1,1165 @@
-//! (stub — to be filled in) suite `gac`.
-use crate::out::Out;
+//! Suite `gac` (property C19): the all-different engines `BitSetGAC`, `SparseSetGAC`,
+//! `HybridGAC`, the bipartite-graph level (`BipartiteGraph`, `Matching`,
+//! `SparseSetAllDiff::propagate`) and the `AllDiff::prune` glue, driven through their public
+//! structs.  Every generated op is a text line that is executed by `apply` (so that replay runs
+//! exactly the same code).
+//!
+//! Hash-order dependence of the sparse-set engine: `Matching::find_maximum_matching` iterates
+//! `graph.var_domains` (a `HashMap`).  At graph level the harness observes that order
+//! (`graph.variables()` on the unmodified map) and passes it to the model (`gac.g.match`,
+//! `gac.g.prop`).  Inside `SparseSetGAC::propagate_alldiff` the graph is a temporary, its order is
+//! unobservable: the op line carries the observed outcome and the model answers whether SOME
+//! order of the key set produces exactly that outcome (`gac.s.prop … | <observed>`).
+use crate::out::{b, guarded, show_ints, Out};
+use crate::rng::Rng;
+use selen::constraints::gac_bitset::BitSetGAC;
+use selen::constraints::gac_hybrid::{BipartiteGraph, DomainType, HybridGAC, Matching, Value, Variable};
+use selen::constraints::gac_sparseset::{SparseSetAllDiff, SparseSetGAC};
+use selen::constraints::props::Propagators;
+use selen::variables::views::Context;
+use selen::variables::{Var, Vars};
+use std::cell::RefCell;
+use std::collections::{BTreeMap, BTreeSet};
 
-pub fn suite(_out: &mut Out, _seed: u64, _count: u64, _args: &[String]) {}
+pub struct Case {
+    bg: BitSetGAC,
+    sg: SparseSetGAC,
+    hg: HybridGAC,
+    hkeys: BTreeSet<usize>,
+    /// variables of the hybrid engine that were added under both representations
+    hboth: BTreeSet<usize>,
+    hrep: BTreeMap<usize, bool>,
+    graph: BipartiteGraph,
+}
+
+impl Case {
+    pub fn new() -> Self {
+        Case {
+            bg: BitSetGAC::new(),
+            sg: SparseSetGAC::new(),
+            hg: HybridGAC::new(),
+            hkeys: BTreeSet::new(),
+            hboth: BTreeSet::new(),
+            hrep: BTreeMap::new(),
+            graph: BipartiteGraph::new(),
+        }
+    }
+}
+
+thread_local! {
+    static CASE: RefCell<Case> = RefCell::new(Case::new());
+}
+
+/// outcome of a propagate op (for the engines-agree oracle)
+#[derive(Clone, Copy, Debug, PartialEq)]
+pub enum Flag {
+    Consistent,
+    Inconsistent,
+    Panic,
+}
+
+// ---------------------------------------------------------------------------------------------
+// printing (mirrors Driver/GacDriver.lean)
+// ---------------------------------------------------------------------------------------------
+
+fn opt_int(v: Option<i32>) -> String {
+    match v {
+        Some(x) => x.to_string(),
+        None => "-".into(),
+    }
+}
+
+fn opt_pair(v: Option<(i32, i32)>) -> String {
+    match v {
+        Some((a, c)) => format!("{a}..{c}"),
+        None => "-".into(),
+    }
+}
+
+fn show_bg(g: &BitSetGAC) -> String {
+    let mut keys: Vec<usize> = g.domains.keys().map(|v| v.0).collect();
+    keys.sort();
+    let parts: Vec<String> = keys
+        .iter()
+        .map(|x| {
+            let d = &g.domains[&Variable(*x)];
+            format!("{x}:{}..{}/{}{}", d.min_universe_value(), d.max_universe_value(), d.universe_size(), show_ints(&d.to_vec()))
+        })
+        .collect();
+    format!("flag={} {}", b(g.domains_changed()), parts.join(" "))
+}
+
+fn bg_doms(g: &BitSetGAC) -> BTreeMap<usize, Vec<i32>> {
+    g.domains.iter().map(|(k, d)| (k.0, d.to_vec())).collect()
+}
+
+fn show_sg(g: &SparseSetGAC) -> String {
+    let mut keys: Vec<usize> = g.domains.keys().map(|v| v.0).collect();
+    keys.sort();
+    let parts: Vec<String> = keys
+        .iter()
+        .map(|x| {
+            let d = &g.domains[&Variable(*x)];
+            let mm = if d.is_empty() { "-".to_string() } else { format!("{}..{}", d.min(), d.max()) };
+            format!("{x}:off={},n={},{},mm={mm}", d.min_universe_value(), d.universe_size(), show_ints(&d.to_vec()))
+        })
+        .collect();
+    parts.join(" ")
+}
+
+fn sg_doms(g: &SparseSetGAC) -> BTreeMap<usize, Vec<i32>> {
+    g.domains.iter().map(|(k, d)| (k.0, d.to_vec())).collect()
+}
+
+fn show_hg(c: &Case) -> String {
+    let (nb, ns) = c.hg.get_stats();
+    let parts: Vec<String> = c
+        .hkeys
+        .iter()
+        .map(|x| {
+            let v = Variable(*x);
+            format!(
+                "{x}:{},asg={},val={},inc={},bnd={}",
+                show_ints(&c.hg.get_domain_values(v)),
+                b(c.hg.is_assigned(v)),
+                opt_int(c.hg.assigned_value(v)),
+                b(c.hg.is_inconsistent(v)),
+                opt_pair(c.hg.get_bounds(v))
+            )
+        })
+        .collect();
+    format!("stats={nb},{ns} {}", parts.join(" "))
+}
+
+fn hg_doms(c: &Case) -> BTreeMap<usize, Vec<i32>> {
+    c.hkeys.iter().map(|x| (*x, c.hg.get_domain_values(Variable(*x)))).collect()
+}
+
+fn show_graph(g: &BipartiteGraph) -> String {
+    let mut keys: Vec<usize> = g.var_domains.keys().map(|v| v.0).collect();
+    keys.sort();
+    let parts: Vec<String> = keys
+        .iter()
+        .map(|x| match &g.var_domains[&Variable(*x)] {
+            DomainType::BitSet(d) => format!("{x}:B{}", show_ints(&d.to_vec())),
+            DomainType::SparseSet(s) => format!("{x}:S{}", show_ints(&s.to_vec())),
+        })
+        .collect();
+    let mut vals: Vec<i32> = g.value_vars.keys().map(|v| v.0).collect();
+    vals.sort();
+    let vparts: Vec<String> = vals
+        .iter()
+        .map(|v| {
+            let l: Vec<String> = g.value_vars[&Value(*v)].iter().map(|x| x.0.to_string()).collect();
+            format!("{v}->[{}]", l.join(","))
+        })
+        .collect();
+    format!("{} ; {}", parts.join(" "), vparts.join(" "))
+}
+
+fn graph_doms(g: &BipartiteGraph) -> BTreeMap<usize, Vec<i32>> {
+    g.var_domains.iter().map(|(k, d)| (k.0, d.iter().collect())).collect()
+}
+
+fn show_matching(m: &Matching, g: &BipartiteGraph) -> String {
+    let mut vs: Vec<(usize, i32)> = m.var_to_val.iter().map(|(k, v)| (k.0, v.0)).collect();
+    vs.sort();
+    let mut ls: Vec<(i32, usize)> = m.val_to_var.iter().map(|(k, v)| (k.0, v.0)).collect();
+    ls.sort();
+    let a: Vec<String> = vs.iter().map(|(x, v)| format!("{x}={v}")).collect();
+    let c: Vec<String> = ls.iter().map(|(v, x)| format!("{v}={x}")).collect();
+    format!("v2l=[{}] l2v=[{}] complete={}", a.join(","), c.join(","), b(m.is_complete(g)))
+}
+
+fn removed_list(before: &BTreeMap<usize, Vec<i32>>, after: &BTreeMap<usize, Vec<i32>>) -> String {
+    let mut parts = vec![];
+    for (x, d) in before {
+        let a = after.get(x).cloned().unwrap_or_default();
+        for v in d {
+            if !a.contains(v) {
+                parts.push(format!("{x}:{v}"));
+            }
+        }
+    }
+    format!("rm=[{}]", parts.join(","))
+}
+
+// ---------------------------------------------------------------------------------------------
+// independent oracle: supports of all-different by bipartite matching (Kuhn), cross-checked
+// against plain enumeration on small instances
+// ---------------------------------------------------------------------------------------------
+
+fn kuhn_try(i: usize, doms: &[Vec<i32>], seen: &mut BTreeSet<i32>, owner: &mut BTreeMap<i32, usize>) -> bool {
+    for &v in &doms[i] {
+        if seen.insert(v) {
+            let free = match owner.get(&v) {
+                None => true,
+                Some(&j) => kuhn_try(j, doms, seen, owner),
+            };
+            if free {
+                owner.insert(v, i);
+                return true;
+            }
+        }
+    }
+    false
+}
+
+/// is there an assignment of pairwise different values?
+fn satisfiable(doms: &[Vec<i32>]) -> bool {
+    let mut owner: BTreeMap<i32, usize> = BTreeMap::new();
+    for i in 0..doms.len() {
+        let mut seen = BTreeSet::new();
+        if !kuhn_try(i, doms, &mut seen, &mut owner) {
+            return false;
+        }
+    }
+    true
+}
+
+fn supported(doms: &[Vec<i32>], i: usize, v: i32) -> bool {
+    if !doms[i].contains(&v) {
+        return false;
+    }
+    let d2: Vec<Vec<i32>> = doms
+        .iter()
+        .enumerate()
+        .map(|(j, d)| if j == i { vec![v] } else { d.iter().cloned().filter(|w| *w != v).collect() })
+        .collect();
+    satisfiable(&d2)
+}
+
+/// plain enumeration: set of (position, value) pairs used by some solution
+fn brute_supports(doms: &[Vec<i32>]) -> (bool, BTreeSet<(usize, i32)>) {
+    fn rec(doms: &[Vec<i32>], k: usize, a: &mut Vec<i32>, sup: &mut BTreeSet<(usize, i32)>, any: &mut bool) {
+        if k == doms.len() {
+            *any = true;
+            for (i, v) in a.iter().enumerate() {
+                sup.insert((i, *v));
+            }
+            return;
+        }
+        for &v in &doms[k] {
+            if !a.contains(&v) {
+                a.push(v);
+                rec(doms, k + 1, a, sup, any);
+                a.pop();
+            }
+        }
+    }
+    let mut sup = BTreeSet::new();
+    let mut any = false;
+    rec(doms, 0, &mut vec![], &mut sup, &mut any);
+    (any, sup)
+}
+
+/// the property oracle for one propagate call.
+/// `vars`: the slice passed to the engine; `before`/`after`: value sets of every known variable.
+fn check_prop(out: &mut Out, l: usize, engine: &str, tag: &str, vars: &[usize], before: &BTreeMap<usize, Vec<i32>>, after: &BTreeMap<usize, Vec<i32>>, flag: Flag) {
+    // no engine may ever add a value or touch a variable outside the slice
+    for (x, d) in after {
+        let bd = before.get(x).cloned().unwrap_or_default();
+        if d.iter().any(|v| !bd.contains(v)) {
+            out.fail(l, "C19", "-", format!("{engine}: domain of variable {x} grew: {bd:?} -> {d:?}"));
+        }
+        if !vars.contains(x) && {
+            let mut a = d.clone();
+            a.sort();
+            let mut c = bd.clone();
+            c.sort();
+            a != c
+        } {
+            out.fail(l, "C19", "-", format!("{engine}: variable {x} outside the constraint changed: {bd:?} -> {d:?}"));
+        }
+    }
+    let distinct: BTreeSet<usize> = vars.iter().cloned().collect();
+    if distinct.len() != vars.len() || vars.iter().any(|x| !before.contains_key(x)) {
+        out.stat("oracle.vacuous(duplicate-or-unknown-variable)");
+        return;
+    }
+    if flag == Flag::Panic {
+        return;
+    }
+    let doms: Vec<Vec<i32>> = vars.iter().map(|x| before[x].clone()).collect();
+    let sat = satisfiable(&doms);
+    let space: f64 = doms.iter().map(|d| d.len().max(1) as f64).product();
+    let brute = if space <= 5000.0 { Some(brute_supports(&doms)) } else { None };
+    if let Some((any, _)) = &brute {
+        assert_eq!(*any, sat, "oracle self-check (satisfiable) failed on {doms:?}");
+        out.stat("oracle.cross-checked");
+    }
+    out.stat(if sat { "oracle.satisfiable" } else { "oracle.unsatisfiable" });
+    if flag == Flag::Inconsistent {
+        if sat {
+            out.fail(l, "C19", tag, format!("{engine}: declared inconsistent although {doms:?} (variables {vars:?}) has an assignment of pairwise different values"));
+        }
+        return;
+    }
+    let mut lost = vec![];
+    for (i, x) in vars.iter().enumerate() {
+        let a = &after[x];
+        for v in &before[x] {
+            if !a.contains(v) {
+                let s = supported(&doms, i, *v);
+                if let Some((_, sup)) = &brute {
+                    assert_eq!(sup.contains(&(i, *v)), s, "oracle self-check (support) failed on {doms:?} {i} {v}");
+                }
+                if s {
+                    lost.push((*x, *v));
+                }
+            }
+        }
+    }
+    if !lost.is_empty() {
+        out.fail(l, "C19", tag, format!("{engine}: removed supported values {lost:?} from {doms:?} (variables {vars:?})"));
+    }
+}
+
+// ---------------------------------------------------------------------------------------------
+// executing one protocol line
+// ---------------------------------------------------------------------------------------------
+
+fn ints(ws: &[&str]) -> Option<Vec<i32>> {
+    ws.iter().map(|w| w.parse::<i32>().ok()).collect()
+}
+fn nats(ws: &[&str]) -> Option<Vec<usize>> {
+    ws.iter().map(|w| w.parse::<usize>().ok()).collect()
+}
+fn join<T: ToString>(v: &[T]) -> String {
+    v.iter().map(|x| x.to_string()).collect::<Vec<_>>().join(" ")
+}
+
+/// run `line` against the implementation; returns the consistency flag of propagate ops
+pub fn apply(c: &mut Case, out: &mut Out, line: &str) -> Option<Flag> {
+    let ws: Vec<&str> = line.split_whitespace().collect();
+    if ws.is_empty() {
+        return None;
+    }
+    let op = ws[0];
+    out.stat(&format!("op.{op}"));
+    let bad = |out: &mut Out| {
+        out.emit(line, "bad-op");
+        None
+    };
+    match op {
+        // ------------------------------------------------------------------ BitSetGAC
+        "gac.b.new" => {
+            c.bg = BitSetGAC::new();
+            out.emit(line, "ok");
+            None
+        }
+        "gac.b.add" | "gac.b.addv" => {
+            let Some(x) = ws.get(1).and_then(|w| w.parse::<usize>().ok()) else { return bad(out) };
+            let Some(v) = ints(&ws[2..]) else { return bad(out) };
+            if op == "gac.b.add" && v.len() != 2 {
+                return bad(out);
+            }
+            let mut g = std::mem::replace(&mut c.bg, BitSetGAC::new());
+            let r = guarded(move || {
+                if op == "gac.b.add" { g.add_variable(Variable(x), v[0], v[1]) } else { g.add_variable_with_values(Variable(x), v) }
+                g
+            });
+            match r {
+                Some(g) => {
+                    c.bg = g;
+                    out.emit(line, show_bg(&c.bg));
+                }
+                None => {
+                    // the panic happens before the map is touched; rebuild is not needed because
+                    // `g` was moved: re-create the previous state from the transcript is impossible,
+                    // so panicking adds are only generated on a fresh engine
+                    let l = out.emit(line, "panic");
+                    out.fail(l, "C17", "gac-span-overflow", format!("panic in {line}"));
+                }
+            }
+            None
+        }
+        "gac.b.rm" | "gac.b.assign" | "gac.b.above" | "gac.b.below" => {
+            let (Some(x), Some(v)) = (ws.get(1).and_then(|w| w.parse::<usize>().ok()), ws.get(2).and_then(|w| w.parse::<i32>().ok())) else { return bad(out) };
+            if ws.len() != 3 {
+                return bad(out);
+            }
+            let r = match op {
+                "gac.b.rm" => c.bg.remove_value(Variable(x), v),
+                "gac.b.assign" => c.bg.assign_variable(Variable(x), v),
+                "gac.b.above" => c.bg.remove_above(Variable(x), v),
+                _ => c.bg.remove_below(Variable(x), v),
+            };
+            out.emit(line, format!("ret={} {}", b(r), show_bg(&c.bg)));
+            None
+        }
+        "gac.b.q" => {
+            let Some(x) = ws.get(1).and_then(|w| w.parse::<usize>().ok()) else { return bad(out) };
+            if ws.len() != 2 {
+                return bad(out);
+            }
+            let v = Variable(x);
+            out.emit(
+                line,
+                format!(
+                    "size={} asg={} val={} inc={} bnd={} vals={}",
+                    c.bg.domain_size(v),
+                    b(c.bg.is_assigned(v)),
+                    opt_int(c.bg.assigned_value(v)),
+                    b(c.bg.is_inconsistent(v)),
+                    opt_pair(c.bg.get_bounds(v)),
+                    show_ints(&c.bg.get_domain_values(v))
+                ),
+            );
+            None
+        }
+        "gac.b.prop" => {
+            let Some(vars) = nats(&ws[1..]) else { return bad(out) };
+            let before = bg_doms(&c.bg);
+            let vs: Vec<Variable> = vars.iter().map(|x| Variable(*x)).collect();
+            let (ch, ok) = c.bg.propagate_alldiff(&vs);
+            let after = bg_doms(&c.bg);
+            let l = out.emit(line, format!("ch={} ok={} {} {}", b(ch), b(ok), show_bg(&c.bg), removed_list(&before, &after)));
+            let flag = if ok { Flag::Consistent } else { Flag::Inconsistent };
+            out.stat(&format!("b.prop.{flag:?}.n{}", vars.len().min(9)));
+            if ch {
+                out.stat("b.prop.changed");
+            }
+            check_prop(out, l, "bitset", "-", &vars, &before, &after, flag);
+            Some(flag)
+        }
+        // ------------------------------------------------------------------ SparseSetGAC
+        "gac.s.new" => {
+            c.sg = SparseSetGAC::new();
+            out.emit(line, "ok");
+            None
+        }
+        "gac.s.add" | "gac.s.addv" => {
+            let Some(x) = ws.get(1).and_then(|w| w.parse::<usize>().ok()) else { return bad(out) };
+            let Some(v) = ints(&ws[2..]) else { return bad(out) };
+            if op == "gac.s.add" {
+                if v.len() != 2 {
+                    return bad(out);
+                }
+                c.sg.add_variable(Variable(x), v[0], v[1]);
+            } else {
+                c.sg.add_variable_with_values(Variable(x), v);
+            }
+            out.emit(line, show_sg(&c.sg));
+            None
+        }
+        "gac.s.rm" | "gac.s.assign" | "gac.s.above" | "gac.s.below" => {
+            let (Some(x), Some(v)) = (ws.get(1).and_then(|w| w.parse::<usize>().ok()), ws.get(2).and_then(|w| w.parse::<i32>().ok())) else { return bad(out) };
+            if ws.len() != 3 {
+                return bad(out);
+            }
+            let r = match op {
+                "gac.s.rm" => c.sg.remove_value(Variable(x), v),
+                "gac.s.assign" => c.sg.assign_variable(Variable(x), v),
+                "gac.s.above" => c.sg.remove_above(Variable(x), v),
+                _ => c.sg.remove_below(Variable(x), v),
+            };
+            out.emit(line, format!("ret={} {}", b(r), show_sg(&c.sg)));
+            None
+        }
+        "gac.s.prop" => {
+            let upto = ws.iter().position(|w| *w == "|").unwrap_or(ws.len());
+            let Some(vars) = nats(&ws[1..upto]) else { return bad(out) };
+            let before = sg_doms(&c.sg);
+            let vs: Vec<Variable> = vars.iter().map(|x| Variable(*x)).collect();
+            let sg = &mut c.sg;
+            let r = guarded(|| sg.propagate_alldiff(&vs));
+            let after = sg_doms(&c.sg);
+            let observed = match r {
+                Some((ch, ok)) => format!("ch={} ok={} {} {}", b(ch), b(ok), show_sg(&c.sg), removed_list(&before, &after)),
+                None => "panic".to_string(),
+            };
+            let l = out.emit(format!("gac.s.prop {} | {observed}", join(&vars)), format!("member {observed}"));
+            let flag = match r {
+                Some((_, true)) => Flag::Consistent,
+                Some((_, false)) => Flag::Inconsistent,
+                None => Flag::Panic,
+            };
+            out.stat(&format!("s.prop.{flag:?}.n{}", vars.len().min(9)));
+            if flag == Flag::Panic {
+                out.fail(l, "C17", "sparse-gac-shift-panic", format!("panic in SparseSetGAC::propagate_alldiff({vars:?}) on {before:?}"));
+            }
+            check_prop(out, l, "sparse", "sparse-gac-unsound", &vars, &before, &after, flag);
+            // ---- C16: the same domains in fresh engines (fresh `HashMap`s, other iteration orders)
+            if flag != Flag::Panic {
+                let canon = |g: &SparseSetGAC, r: (bool, bool)| -> String {
+                    let mut d: Vec<(usize, Vec<i32>)> = g.domains.iter().map(|(k, d)| { let mut v = d.to_vec(); v.sort(); (k.0, v) }).collect();
+                    d.sort();
+                    format!("{r:?} {d:?}")
+                };
+                let mut outcomes: BTreeSet<String> = BTreeSet::new();
+                for _ in 0..6 {
+                    let mut g2 = SparseSetGAC::new();
+                    for (x, d) in &before {
+                        g2.add_variable_with_values(Variable(*x), d.clone());
+                    }
+                    if let Some(r2) = guarded(|| g2.propagate_alldiff(&vs)) {
+                        outcomes.insert(canon(&g2, r2));
+                    }
+                }
+                if outcomes.len() > 1 {
+                    out.stat("s.prop.hash-order-dependent");
+                    out.fail(l, "C16", "sparse-gac-hash-order", format!("SparseSetGAC::propagate_alldiff({vars:?}) on {before:?} has {} different outcomes in one process: {:?}", outcomes.len(), outcomes));
+                }
+            }
+            Some(flag)
+        }
+        // ------------------------------------------------------------------ BipartiteGraph level
+        "gac.g.new" => {
+            c.graph = BipartiteGraph::new();
+            out.emit(line, "ok");
+            None
+        }
+        "gac.g.addv" | "gac.g.addr" => {
+            let Some(x) = ws.get(1).and_then(|w| w.parse::<usize>().ok()) else { return bad(out) };
+            let Some(v) = ints(&ws[2..]) else { return bad(out) };
+            if op == "gac.g.addr" {
+                if v.len() != 2 {
+                    return bad(out);
+                }
+                c.graph.add_variable_range(Variable(x), v[0], v[1]);
+            } else {
+                c.graph.add_variable(Variable(x), v);
+            }
+            out.emit(line, show_graph(&c.graph));
+            None
+        }
+        "gac.g.rm" => {
+            let (Some(x), Some(v)) = (ws.get(1).and_then(|w| w.parse::<usize>().ok()), ws.get(2).and_then(|w| w.parse::<i32>().ok())) else { return bad(out) };
+            if ws.len() != 3 {
+                return bad(out);
+            }
+            let r = c.graph.remove_value(Variable(x), Value(v));
+            out.emit(line, format!("ret={} {}", b(r), show_graph(&c.graph)));
+            None
+        }
+        "gac.g.match" => {
+            // the order argument of the line is replaced by the order observed now
+            let order: Vec<usize> = c.graph.variables().map(|v| v.0).collect();
+            let g = &c.graph;
+            let r = guarded(|| Matching::find_maximum_matching(g));
+            let res = match &r {
+                Some(m) => show_matching(m, &c.graph),
+                None => "panic".to_string(),
+            };
+            let l = out.emit(format!("gac.g.match {}", join(&order)), res);
+            if r.is_none() {
+                out.stat("g.match.panic");
+                out.fail(l, "C17", "sparse-gac-shift-panic", format!("panic in Matching::find_maximum_matching on {:?}", graph_doms(&c.graph)));
+            }
+            None
+        }
+        "gac.g.prop" => {
+            let order: Vec<usize> = c.graph.variables().map(|v| v.0).collect();
+            let before = graph_doms(&c.graph);
+            let g = &mut c.graph;
+            let r = guarded(|| SparseSetAllDiff::propagate(g));
+            let after = graph_doms(&c.graph);
+            let res = match r {
+                Some(ok) => format!("ok={} {}", b(ok), show_graph(&c.graph)),
+                None => "panic".to_string(),
+            };
+            let l = out.emit(format!("gac.g.prop {}", join(&order)), res);
+            let flag = match r {
+                Some(true) => Flag::Consistent,
+                Some(false) => Flag::Inconsistent,
+                None => Flag::Panic,
+            };
+            out.stat(&format!("g.prop.{flag:?}.n{}", order.len().min(9)));
+            if flag == Flag::Panic {
+                out.fail(l, "C17", "sparse-gac-shift-panic", format!("panic in SparseSetAllDiff::propagate on {before:?}"));
+            }
+            let mut vars = order.clone();
+            vars.sort();
+            check_prop(out, l, "sparse-graph", "sparse-gac-unsound", &vars, &before, &after, flag);
+            Some(flag)
+        }
+        // ------------------------------------------------------------------ HybridGAC
+        "gac.h.new" => {
+            c.hg = HybridGAC::new();
+            c.hkeys.clear();
+            c.hboth.clear();
+            c.hrep.clear();
+            out.emit(line, "ok");
+            None
+        }
+        "gac.h.add" | "gac.h.addv" => {
+            let Some(x) = ws.get(1).and_then(|w| w.parse::<usize>().ok()) else { return bad(out) };
+            let Some(v) = ints(&ws[2..]) else { return bad(out) };
+            if op == "gac.h.add" && v.len() != 2 {
+                return bad(out);
+            }
+            let span: Option<i64> = if op == "gac.h.add" {
+                if v[0] <= v[1] { Some(v[1] as i64 - v[0] as i64 + 1) } else { None }
+            } else if v.is_empty() {
+                None
+            } else {
+                Some(*v.iter().max().unwrap() as i64 - *v.iter().min().unwrap() as i64 + 1)
+            };
+            let hg = &mut c.hg;
+            let r = guarded(move || if op == "gac.h.add" { hg.add_variable(Variable(x), v[0], v[1]) } else { hg.add_variable_with_values(Variable(x), v) });
+            match r {
+                Some(Ok(())) => {
+                    let bits = span.unwrap_or(0) <= 128;
+                    if let Some(prev) = c.hrep.get(&x) {
+                        if *prev != bits {
+                            c.hboth.insert(x);
+                        }
+                    }
+                    c.hrep.insert(x, bits);
+                    c.hkeys.insert(x);
+                    out.stat(if bits { "h.add.bitset" } else { "h.add.sparse" });
+                    out.emit(line, show_hg(c));
+                }
+                Some(Err(_)) => {
+                    out.stat("h.add.err");
+                    out.emit(line, "err");
+                }
+                None => {
+                    let l = out.emit(line, "panic");
+                    out.fail(l, "C17", "gac-span-overflow", format!("panic in {line}"));
+                }
+            }
+            None
+        }
+        "gac.h.rm" | "gac.h.assign" | "gac.h.above" | "gac.h.below" => {
+            let (Some(x), Some(v)) = (ws.get(1).and_then(|w| w.parse::<usize>().ok()), ws.get(2).and_then(|w| w.parse::<i32>().ok())) else { return bad(out) };
+            if ws.len() != 3 {
+                return bad(out);
+            }
+            let r = match op {
+                "gac.h.rm" => c.hg.remove_value(Variable(x), v),
+                "gac.h.assign" => c.hg.assign_variable(Variable(x), v),
+                "gac.h.above" => c.hg.remove_above(Variable(x), v),
+                _ => c.hg.remove_below(Variable(x), v),
+            };
+            out.emit(line, format!("ret={} {}", b(r), show_hg(c)));
+            None
+        }
+        "gac.h.prop" => {
+            let Some(vars) = nats(&ws[1..]) else { return bad(out) };
+            let before = hg_doms(c);
+            let vs: Vec<Variable> = vars.iter().map(|x| Variable(*x)).collect();
+            let (ch, ok) = c.hg.propagate_alldiff(&vs);
+            let after = hg_doms(c);
+            let l = out.emit(line, format!("ch={} ok={} {} {}", b(ch), b(ok), show_hg(c), removed_list(&before, &after)));
+            let flag = if ok { Flag::Consistent } else { Flag::Inconsistent };
+            out.stat(&format!("h.prop.{flag:?}.n{}", vars.len().min(9)));
+            let mixed = vars.iter().any(|x| c.hrep.get(x) == Some(&true)) && vars.iter().any(|x| c.hrep.get(x) == Some(&false));
+            if mixed {
+                out.stat("h.prop.mixed-representations");
+            }
+            let tag = if c.hboth.is_empty() { "-" } else { "hybrid-readd-stale" };
+            check_prop(out, l, "hybrid", tag, &vars, &before, &after, flag);
+            Some(flag)
+        }
+        // ------------------------------------------------------------------ AllDiff::prune glue
+        "gac.prune" => {
+            let Some(v) = ints(&ws[1..]) else { return bad(out) };
+            if v.len() % 2 != 0 {
+                return bad(out);
+            }
+            let bounds: Vec<(i32, i32)> = v.chunks(2).map(|p| (p[0], p[1])).collect();
+            if bounds.iter().any(|(lo, hi)| lo > hi) {
+                // interval variables only (an empty interval cannot be created through `Vars`)
+                return bad(out);
+            }
+            let r = guarded(|| {
+                let mut vars = Vars::new();
+                let ids: Vec<_> = bounds.iter().map(|(lo, hi)| vars.new_var_with_values((*lo..=*hi).collect())).collect();
+                let mut props = Propagators::default();
+                for _ in &ids {
+                    props.on_new_var();
+                }
+                let p = props.all_different(ids.clone());
+                let mut events = Vec::new();
+                let res = {
+                    let mut ctx = Context::verif_new(&mut vars, &mut events);
+                    props.get_state(p).as_ref().prune(&mut ctx)
+                };
+                res.map(|_| {
+                    ids.iter()
+                        .map(|id| match &vars[*id] {
+                            Var::VarI(s) => (s.min(), s.max()),
+                            Var::VarF(_) => (0, -1),
+                        })
+                        .collect::<Vec<(i32, i32)>>()
+                })
+            });
+            let Some(res) = r else {
+                let l = out.emit(line, "panic");
+                out.fail(l, "C17", "-", format!("panic in {line}"));
+                return None;
+            };
+            let text = match &res {
+                None => "none".to_string(),
+                Some(bs) => format!("some {}", bs.iter().map(|(a, c)| format!("{a}..{c}")).collect::<Vec<_>>().join(" ")),
+            };
+            let l = out.emit(line, text);
+            let doms: Vec<Vec<i32>> = bounds.iter().map(|(lo, hi)| (*lo..=*hi).collect()).collect();
+            let sat = satisfiable(&doms);
+            match &res {
+                None => {
+                    out.stat("prune.none");
+                    if sat {
+                        out.fail(l, "C19", "-", format!("AllDiff::prune failed although {bounds:?} has a solution"));
+                    }
+                }
+                Some(bs) => {
+                    out.stat(if *bs == bounds { "prune.fixpoint" } else { "prune.changed" });
+                    for (i, (nlo, nhi)) in bs.iter().enumerate() {
+                        if *nlo < bounds[i].0 || *nhi > bounds[i].1 {
+                            out.fail(l, "C19", "-", format!("AllDiff::prune widened variable {i}: {:?} -> {:?}", bounds[i], (nlo, nhi)));
+                        }
+                        for v in bounds[i].0..=bounds[i].1 {
+                            if (v < *nlo || v > *nhi) && supported(&doms, i, v) {
+                                out.fail(l, "C19", "-", format!("AllDiff::prune cut the supported value {v} of variable {i} from {bounds:?}"));
+                                break;
+                            }
+                        }
+                    }
+                }
+            }
+            None
+        }
+        _ => bad(out),
+    }
+}
 
 /// replay of one protocol line of this suite inside the current case
-pub fn replay_line(_out: &mut Out, _line: &str) {}
+pub fn replay_line(out: &mut Out, line: &str) {
+    CASE.with(|c| {
+        apply(&mut c.borrow_mut(), out, line);
+    });
+}
+
+// ---------------------------------------------------------------------------------------------
+// generators
+// ---------------------------------------------------------------------------------------------
+
+#[derive(Clone, Debug)]
+enum Dom {
+    Range(i32, i32),
+    Values(Vec<i32>),
+}
+
+impl Dom {
+    fn values(&self) -> Vec<i32> {
+        match self {
+            Dom::Range(a, c) => (*a..=*c).collect(),
+            Dom::Values(v) => {
+                let s: BTreeSet<i32> = v.iter().cloned().collect();
+                s.into_iter().collect()
+            }
+        }
+    }
+    fn span(&self) -> i64 {
+        let v = self.values();
+        if v.is_empty() { 0 } else { (v[v.len() - 1] - v[0]) as i64 + 1 }
+    }
+    fn add_line(&self, prefix: &str, x: usize) -> String {
+        match self {
+            Dom::Range(a, c) => format!("gac.{prefix}.add {x} {a} {c}"),
+            Dom::Values(v) => format!("gac.{prefix}.addv {x} {}", join(v)),
+        }
+    }
+    fn graph_line(&self, x: usize) -> String {
+        match self {
+            Dom::Range(a, c) => format!("gac.g.addr {x} {a} {c}"),
+            Dom::Values(v) => format!("gac.g.addv {x} {}", join(v)),
+        }
+    }
+}
+
+/// does `SparseSetGAC` take the bit-set BFS (and panic on values outside 0..128)?
+fn sparse_small(doms: &[Dom]) -> bool {
+    let all: BTreeSet<i32> = doms.iter().flat_map(|d| d.values()).collect();
+    doms.len() <= 64 && all.len() <= 128
+}
+
+/// build the family in every engine, propagate, compare the consistency flags
+fn family(c: &mut Case, out: &mut Out, ids: &[usize], doms: &[Dom], engines: &str) {
+    let vars = join(ids);
+    let mut flags: Vec<(&str, Flag)> = vec![];
+    let all_small = doms.iter().all(|d| d.span() <= 128);
+    if engines.contains('b') && all_small {
+        apply(c, out, "gac.b.new");
+        for (x, d) in ids.iter().zip(doms) {
+            apply(c, out, &d.add_line("b", *x));
+        }
+        if let Some(f) = apply(c, out, &format!("gac.b.prop {vars}")) {
+            flags.push(("bitset", f));
+        }
+    }
+    if engines.contains('h') {
+        apply(c, out, "gac.h.new");
+        for (x, d) in ids.iter().zip(doms) {
+            apply(c, out, &d.add_line("h", *x));
+        }
+        if let Some(f) = apply(c, out, &format!("gac.h.prop {vars}")) {
+            flags.push(("hybrid", f));
+        }
+    }
+    if engines.contains('s') && ids.len() <= 5 {
+        apply(c, out, "gac.s.new");
+        for (x, d) in ids.iter().zip(doms) {
+            apply(c, out, &d.add_line("s", *x));
+        }
+        if let Some(f) = apply(c, out, &format!("gac.s.prop {vars}")) {
+            flags.push(("sparse", f));
+        }
+    }
+    if engines.contains('g') {
+        apply(c, out, "gac.g.new");
+        for (x, d) in ids.iter().zip(doms) {
+            apply(c, out, &d.graph_line(*x));
+        }
+        apply(c, out, "gac.g.match");
+        if let Some(f) = apply(c, out, "gac.g.prop") {
+            flags.push(("sparse-graph", f));
+        }
+    }
+    // ---- oracle: the engines agree on consistency
+    let l = out.ops.len() - 1;
+    let seen: BTreeSet<bool> = flags.iter().filter(|(_, f)| *f != Flag::Panic).map(|(_, f)| *f == Flag::Consistent).collect();
+    if seen.len() > 1 {
+        let dv: Vec<Vec<i32>> = doms.iter().map(|d| d.values()).collect();
+        let sat = satisfiable(&dv);
+        // with a solution, the engine that said "inconsistent" is already reported by its own
+        // soundness oracle; without one, the engine that said "consistent" is merely incomplete
+        let tag = if !sat { "engines-disagree-incomplete" } else if flags.iter().any(|(e, f)| e.starts_with("sparse") && *f == Flag::Inconsistent) { "sparse-gac-unsound" } else { "-" };
+        out.fail(l, "C19", tag, format!("engines disagree on consistency of {dv:?}: {flags:?} (satisfiable: {sat})"));
+        out.stat("agree.disagree");
+    } else if flags.len() > 1 {
+        out.stat("agree.agree");
+    }
+}
+
+fn small_dom(r: &mut Rng, off: i32, width: i32) -> Dom {
+    // a non-empty subset of [off, off+width)
+    match r.below(10) {
+        0 => Dom::Values(vec![off + r.below(width as u64) as i32]),
+        1 | 2 => {
+            let a = r.below(width as u64) as i32;
+            let c = r.range(a as i64, width as i64 - 1) as i32;
+            Dom::Range(off + a, off + c)
+        }
+        _ => {
+            let mut v: Vec<i32> = (0..width).filter(|_| r.chance(1, 2)).map(|k| off + k).collect();
+            if v.is_empty() {
+                v.push(off + r.below(width as u64) as i32);
+            }
+            if r.chance(1, 4) {
+                // unsorted with a duplicate
+                v.reverse();
+                let d = v[0];
+                v.push(d);
+            }
+            Dom::Values(v)
+        }
+    }
+}
+
+fn big_dom(r: &mut Rng, off: i32) -> Dom {
+    match r.below(6) {
+        0 => {
+            // sizes exactly 127 / 128 / 129 / 130
+            let n = *r.pick(&[127, 128, 129, 130]);
+            let lo = off - r.below(3) as i32;
+            Dom::Range(lo, lo + n - 1)
+        }
+        1 => {
+            let n = r.range(131, 260) as i32;
+            let lo = off - r.below(20) as i32;
+            Dom::Range(lo, lo + n - 1)
+        }
+        2 => {
+            // few values spanning >= 128 integers
+            let mut v = vec![off + r.below(4) as i32, off + 127 + r.below(40) as i32];
+            for _ in 0..r.below(3) {
+                v.push(off + r.below(160) as i32);
+            }
+            Dom::Values(v)
+        }
+        3 => {
+            // value list whose span is exactly 127 / 128 / 129 / 130
+            let n = *r.pick(&[127, 128, 129, 130]);
+            let mut v = vec![off, off + n - 1];
+            for _ in 0..r.below(4) {
+                v.push(off + r.below(n as u64) as i32);
+            }
+            Dom::Values(v)
+        }
+        4 => {
+            // more than 128 values as a list with holes
+            let n = r.range(140, 200) as i32;
+            let hole = r.below(n as u64) as i32;
+            Dom::Values((0..n).filter(|k| *k != hole && k % 17 != 3).map(|k| off + k).collect())
+        }
+        _ => Dom::Range(off, off + r.range(60, 126) as i32),
+    }
+}
+
+fn random_family(r: &mut Rng, out: &mut Out) -> (Vec<usize>, Vec<Dom>) {
+    let n = match r.below(10) {
+        0 => 2,
+        1 | 2 => 3,
+        3 | 4 => 4,
+        5 => 5,
+        6 => 6,
+        7 => 7,
+        _ => 8,
+    } as usize;
+    let profile = r.below(10);
+    let off: i32 = match r.below(20) {
+        0 => -3,
+        1 => -100,
+        2 | 3 | 4 => 1,
+        5 => 125,
+        6 => 1000,
+        _ => 0,
+    };
+    out.stat(&format!("family.n{n}"));
+    out.stat(&format!("family.off{off}"));
+    let width = r.range((n as i64 - 2).max(1), n as i64 + 2) as i32;
+    let mut doms = vec![];
+    for _ in 0..n {
+        let d = if profile >= 6 && r.chance(1, 3) { big_dom(r, off) } else { small_dom(r, off, width) };
+        out.stat(match (&d, d.span() > 128) {
+            (Dom::Range(..), false) => "dom.range.small",
+            (Dom::Range(..), true) => "dom.range.big",
+            (Dom::Values(..), false) => "dom.values.small",
+            (Dom::Values(..), true) => "dom.values.big",
+        });
+        doms.push(d);
+    }
+    // variable ids: mostly 0..n, sometimes scattered (node ids of the bit matrix are raw ids)
+    let ids: Vec<usize> = if r.chance(1, 5) {
+        let f = *r.pick(&[3usize, 3, 10]);
+        (0..n).map(|i| i * f + r.below(f as u64) as usize).collect()
+    } else {
+        (0..n).collect()
+    };
+    (ids, doms)
+}
+
+/// a random sequence on one engine: propagate, remove / assign / cut, propagate again
+fn sequence(c: &mut Case, out: &mut Out, r: &mut Rng, prefix: &str, ids: &[usize], doms: &[Dom], malformed: bool) {
+    apply(c, out, &format!("gac.{prefix}.new"));
+    for (x, d) in ids.iter().zip(doms) {
+        let l = if prefix == "g" { d.graph_line(*x) } else { d.add_line(prefix, *x) };
+        apply(c, out, &l);
+    }
+    let universe: Vec<i32> = doms.iter().flat_map(|d| d.values()).collect();
+    let steps = r.range(3, 8);
+    for _ in 0..steps {
+        let x = *r.pick(ids);
+        let v = if r.chance(1, 8) { *r.pick(&universe) + r.range(-2, 2) as i32 } else { *r.pick(&universe) };
+        let x = if malformed && r.chance(1, 6) { x + 50 } else { x };
+        match r.below(10) {
+            0..=3 => {
+                // propagate on all or on a sub-slice
+                let mut vs: Vec<usize> = if r.chance(2, 3) { ids.to_vec() } else { ids.iter().cloned().filter(|_| r.chance(2, 3)).collect() };
+                if r.chance(1, 4) {
+                    // a different order of the slice
+                    vs.reverse();
+                }
+                if malformed && r.chance(1, 3) && !vs.is_empty() {
+                    if r.chance(1, 2) { vs.push(vs[0]) } else { vs.push(99) }
+                }
+                if prefix == "g" {
+                    apply(c, out, "gac.g.match");
+                    apply(c, out, "gac.g.prop");
+                } else if prefix == "s" {
+                    let distinct: BTreeSet<usize> = vs.iter().cloned().collect();
+                    if distinct.len() <= 5 {
+                        apply(c, out, &format!("gac.s.prop {}", join(&vs)));
+                    }
+                } else {
+                    apply(c, out, &format!("gac.{prefix}.prop {}", join(&vs)));
+                }
+            }
+            4..=6 => {
+                apply(c, out, &format!("gac.{prefix}.rm {x} {v}"));
+            }
+            7 if prefix != "g" => {
+                apply(c, out, &format!("gac.{prefix}.assign {x} {v}"));
+            }
+            8 if prefix != "g" => {
+                apply(c, out, &format!("gac.{prefix}.above {x} {v}"));
+            }
+            9 if prefix != "g" => {
+                apply(c, out, &format!("gac.{prefix}.below {x} {v}"));
+            }
+            _ => {
+                apply(c, out, &format!("gac.{prefix}.rm {x} {v}"));
+            }
+        }
+        if prefix == "b" && r.chance(1, 4) {
+            apply(c, out, &format!("gac.b.q {x}"));
+        }
+    }
+}
+
+fn exhaustive(out: &mut Out, nvars: usize, nvals: i32, off: i32, shard: u64, shards: u64) {
+    // every family of `k <= nvars` non-empty subsets of [off, off+nvals)
+    let subsets: Vec<Vec<i32>> = (1u32..(1 << nvals)).map(|m| (0..nvals).filter(|k| m & (1 << k) != 0).map(|k| off + k).collect()).collect();
+    let mut c = Case::new();
+    let mut idx: u64 = 0;
+    for k in 2..=nvars {
+        let mut sel = vec![0usize; k];
+        loop {
+            if idx % shards == shard {
+                out.case(&format!("exh-{k}-{idx}"));
+                let doms: Vec<Dom> = sel.iter().map(|s| Dom::Values(subsets[*s].clone())).collect();
+                let ids: Vec<usize> = (0..k).collect();
+                family(&mut c, out, &ids, &doms, "bhsg");
+            }
+            idx += 1;
+            // next tuple
+            let mut p = k;
+            loop {
+                if p == 0 {
+                    break;
+                }
+                p -= 1;
+                sel[p] += 1;
+                if sel[p] < subsets.len() {
+                    break;
+                }
+                sel[p] = 0;
+                if p == 0 {
+                    p = usize::MAX;
+                    break;
+                }
+            }
+            if p == usize::MAX {
+                break;
+            }
+        }
+    }
+}
+
+fn arg(args: &[String], name: &str, default: &str) -> String {
+    args.iter().position(|a| a == name).and_then(|i| args.get(i + 1)).cloned().unwrap_or_else(|| default.to_string())
+}
+
+pub fn suite(out: &mut Out, seed: u64, count: u64, args: &[String]) {
+    if args.iter().any(|a| a == "--exh") {
+        // `gac --exh --universe <vals> --vars <n> [--offset o] [--shard i --shards k]`
+        let nvals: i32 = arg(args, "--universe", "4").parse().unwrap();
+        let nvars: usize = arg(args, "--vars", "3").parse().unwrap();
+        let off: i32 = arg(args, "--offset", "0").parse().unwrap();
+        let shard: u64 = arg(args, "--shard", "0").parse().unwrap();
+        let shards: u64 = arg(args, "--shards", "1").parse().unwrap();
+        exhaustive(out, nvars, nvals, off, shard, shards);
+        return;
+    }
+    let mut root = Rng::new(seed ^ 0x6AC0_19C1_9A11_D1FF);
+    let mut c = Case::new();
+    for i in 0..count {
+        let mut r = root.fork();
+        out.case(&format!("gac-{seed}-{i}"));
+        match r.below(20) {
+            0..=7 => {
+                // the same family in all engines
+                let (ids, doms) = random_family(&mut r, out);
+                if sparse_small(&doms) && doms.iter().flat_map(|d| d.values()).any(|v| !(0..128).contains(&v)) {
+                    out.stat("family.sparse-bitset-bfs-with-values-outside-0..128");
+                }
+                family(&mut c, out, &ids, &doms, "bhsg");
+            }
+            8..=10 => {
+                let (ids, doms) = random_family(&mut r, out);
+                let small: Vec<Dom> = doms.into_iter().map(|d| if d.span() > 128 { Dom::Range(0, 3) } else { d }).collect();
+                sequence(&mut c, out, &mut r, "b", &ids, &small, false);
+            }
+            11..=13 => {
+                let (ids, doms) = random_family(&mut r, out);
+                sequence(&mut c, out, &mut r, "h", &ids, &doms, false);
+            }
+            14 | 15 => {
+                let (ids, doms) = random_family(&mut r, out);
+                sequence(&mut c, out, &mut r, "s", &ids, &doms, false);
+            }
+            16 => {
+                let (ids, doms) = random_family(&mut r, out);
+                sequence(&mut c, out, &mut r, "g", &ids, &doms, false);
+            }
+            17 | 18 => {
+                // AllDiff::prune on interval domains
+                let n = r.range(2, 7) as usize;
+                let off = *r.pick(&[0, -5, 100]);
+                let w = r.range((n as i64 - 1).max(1), n as i64 + 3) as i32;
+                let mut bs = vec![];
+                for _ in 0..n {
+                    if r.chance(1, 8) {
+                        let lo = off - r.below(5) as i32;
+                        bs.push((lo, lo + *r.pick(&[126, 127, 128, 129, 150])));
+                    } else {
+                        let a = off + r.below(w as u64) as i32;
+                        let c2 = r.range(a as i64, (off + w - 1) as i64) as i32;
+                        bs.push((a, c2));
+                    }
+                }
+                let flat: Vec<String> = bs.iter().map(|(a, c2)| format!("{a} {c2}")).collect();
+                apply(&mut c, out, &format!("gac.prune {}", flat.join(" ")));
+            }
+            _ => {
+                // malformed stream: unknown variables, duplicates in the slice, re-added variables
+                // (possibly under the other representation), reversed / empty / overflowing ranges
+                out.stat("malformed");
+                let (ids, doms) = random_family(&mut r, out);
+                match r.below(5) {
+                    0 => sequence(&mut c, out, &mut r, "b", &ids, &doms, true),
+                    1 => sequence(&mut c, out, &mut r, "h", &ids, &doms, true),
+                    2 => {
+                        apply(&mut c, out, "gac.h.new");
+                        apply(&mut c, out, "gac.h.add 0 5 1");
+                        apply(&mut c, out, "gac.h.addv 0");
+                        apply(&mut c, out, "gac.h.add 1 -2147483648 2147483647");
+                        apply(&mut c, out, "gac.h.add 0 0 200");
+                        apply(&mut c, out, "gac.h.assign 0 7");
+                        apply(&mut c, out, "gac.h.add 0 1 5");
+                        apply(&mut c, out, "gac.h.add 2 5 9");
+                        apply(&mut c, out, "gac.h.prop 0 2");
+                        apply(&mut c, out, "gac.h.prop");
+                        apply(&mut c, out, "gac.h.prop 7");
+                    }
+                    3 => {
+                        apply(&mut c, out, "gac.b.new");
+                        apply(&mut c, out, "gac.b.add 0 5 1");
+                        apply(&mut c, out, "gac.b.addv 1");
+                        apply(&mut c, out, "gac.b.add 2 0 128");
+                        apply(&mut c, out, "gac.b.add 3 0 127");
+                        apply(&mut c, out, "gac.b.addv 4 0 200");
+                        apply(&mut c, out, "gac.b.q 2");
+                        apply(&mut c, out, "gac.b.q 9");
+                        apply(&mut c, out, "gac.b.prop 0 1 2 3 4");
+                        apply(&mut c, out, "gac.b.prop 0");
+                        apply(&mut c, out, "gac.b.prop 0 0");
+                        apply(&mut c, out, "gac.b.new");
+                        apply(&mut c, out, "gac.b.add 0 -2147483648 2147483647");
+                    }
+                    _ => {
+                        apply(&mut c, out, "gac.g.new");
+                        apply(&mut c, out, "gac.g.addr 0 5 1");
+                        apply(&mut c, out, "gac.g.addr 1 3 2");
+                        apply(&mut c, out, "gac.g.addv 2");
+                        apply(&mut c, out, "gac.g.addv 70 1 2");
+                        apply(&mut c, out, "gac.g.addv 2 1 1 2");
+                        apply(&mut c, out, "gac.g.rm 2 1");
+                        apply(&mut c, out, "gac.g.match");
+                        apply(&mut c, out, "gac.g.prop");
+                        apply(&mut c, out, "gac.s.new");
+                        apply(&mut c, out, "gac.s.add 0 3 1");
+                        apply(&mut c, out, "gac.s.addv 1");
+                        apply(&mut c, out, "gac.s.prop 0 1");
+                        apply(&mut c, out, "gac.s.prop 0 0");
+                        apply(&mut c, out, "gac.s.prop 5 6");
+                    }
+                }
+            }
+        }
+    }
+}
